@@ -7,7 +7,8 @@ Correspondence streams (model = lean/Drv/C07.lean over Model.Apci):
                 segmented confirmed requests to a strength-3 orthogonal array; thorough runs
                 all 332 800); per header four operations:
                   enc   raw APCI.encode                        (header octets)
-                  aenc  typed class -> APDU -> PDU (+ payload) (observation point)
+                  aenc  typed class (built through its constructor parameters) -> APDU -> PDU
+                        (+ payload)                            (observation point)
                   dec   raw APCI.decode of header+payload      (fields, what is left in
                         pdu.pduData, what APCI.decode put into self.pduData, octets consumed)
                   adec  PDU -> APDU.decode -> typed class      (fields + payload)
@@ -26,7 +27,8 @@ Implementation-side oracle (independent of the model; only this produces failing
     == input; what decodes re-encodes and decodes to the same header
   * tables equal the standard's at every code point; encoders round down, never up, pick
     the best code, are monotone; too-small capabilities refused
-  * apdu_types registers the eight classes under their own pduType
+  * apdu_types registers the eight classes under their own pduType; replies built with
+    `context=request` carry the request's invoke ID / service choice
 Exception kinds: DecodingError -> decoding (core.exc_kind).  Encoder-side Python errors
 are mapped HERE, for the encode / table operations only (they are the modelled refusals):
   TypeError / ValueError('bytes must be in range') in APCI.encode -> encoding
@@ -70,6 +72,12 @@ KEYS = ["seg", "mor", "sa", "srv", "nak", "seq", "win", "msegs", "mresp", "svc",
 ATTR = {"seg": "apduSeg", "mor": "apduMor", "sa": "apduSA", "srv": "apduSrv", "nak": "apduNak",
         "seq": "apduSeq", "win": "apduWin", "msegs": "apduMaxSegs", "mresp": "apduMaxResp",
         "svc": "apduService", "inv": "apduInvokeID", "rsn": "apduAbortRejectReason"}
+# constructor parameter -> header key, per PDU class (apdu.py: the eight __init__ signatures)
+CTOR = {0: {"choice": "svc"}, 1: {"choice": "svc"}, 2: {"choice": "svc", "invokeID": "inv"},
+        3: {"choice": "svc", "invokeID": "inv"},
+        4: {"nak": "nak", "srv": "srv", "invokeID": "inv", "sequenceNumber": "seq", "windowSize": "win"},
+        5: {"choice": "svc", "invokeID": "inv"}, 6: {"invokeID": "inv", "reason": "rsn"},
+        7: {"srv": "srv", "invokeID": "inv", "reason": "rsn"}}
 # the standard's tables, written here independently of bacpypes and of the Lean model
 STD_SEGS = [None, 2, 4, 8, 16, 32, 64, None]
 STD_LEN = [50, 128, 206, 480, 1024, 1476]
@@ -145,13 +153,20 @@ def impl(case):
             return {"r": "err", "k": enc_exc_kind(e)}
     if op == "aenc":
         try:
-            cls = A.apdu_types.get(case["h"]["t"])
+            h = case["h"]
+            cls = A.apdu_types.get(h["t"])
             if cls is None:
                 x = A.APDU()
-                x.apduType = case["h"]["t"]
+                x.apduType = h["t"]
+                set_fields(x, h)
             else:
-                x = cls()          # the class fixes apduType
-            set_fields(x, case["h"])
+                # through the class's own constructor parameters (the class fixes apduType);
+                # attributes the constructor has no parameter for are assigned afterwards
+                kw = {k: h[f] for k, f in CTOR[h["t"]].items()}
+                x = cls(**kw)
+                for k in KEYS:
+                    if k not in CTOR[h["t"]].values():
+                        setattr(x, ATTR[k], h[k])
             x.pduData = bytearray(bytes.fromhex(case["data"]))
             if cls is None:
                 apdu = x
@@ -413,6 +428,36 @@ def oracle_registry(ctx):
     ctx.count("registry", ("registry", len(reg)))
 
 
+def oracle_context_ctor(ctx):
+    """acks / errors / rejects / aborts built from the request they answer (`context=`)
+    carry its invoke ID (and service choice) onto the wire"""
+    from bacpypes import apdu as A
+    from bacpypes.pdu import PDU
+    for inv, svc in itertools.product(OCTETS, OCTETS):
+        req = A.ConfirmedRequestPDU(choice=svc)
+        req.apduInvokeID = inv
+        for t, mk in ((2, lambda: A.SimpleAckPDU(context=req)), (3, lambda: A.ComplexAckPDU(context=req)),
+                      (5, lambda: A.ErrorPDU(context=req)), (6, lambda: A.RejectPDU(reason=9, context=req)),
+                      (7, lambda: A.AbortPDU(srv=True, reason=65, context=req))):
+            case = {"op": "ctx-ctor", "t": t, "inv": inv, "svc": svc}
+            try:
+                x = mk()
+                if t == 3:
+                    x.apduSeg = False; x.apduMor = False
+                apdu = A.APDU(); x.encode(apdu)
+                pdu = PDU(); apdu.encode(pdu)
+                got = bytes(pdu.pduData)
+            except Exception as e:
+                ctx.fail("unexpected-exception", case, "raised %s" % type(e).__name__, op="ctx-ctor")
+                continue
+            exp = {2: bytes([0x20, inv, svc]), 3: bytes([0x30, inv, svc]), 5: bytes([0x50, inv, svc]),
+                   6: bytes([0x60, inv, 9]), 7: bytes([0x71, inv, 65])}[t]
+            if got != exp:
+                ctx.fail("layout", case, "reply built from its request encodes as %s, expected %s" % (
+                    got.hex(), exp.hex()), op="ctx-ctor", pdu_type=t)
+            ctx.count("ctx-ctor", ("ctx-ctor", t))
+
+
 # ---------------------------------------------------------------- generators
 
 def headers_of_type(t, full=True):
@@ -662,6 +707,7 @@ def run(ctx):
     if corpus:
         run_cases(ctx, "corpus", corpus)
     oracle_registry(ctx)
+    oracle_context_ctor(ctx)
     # 1. tables
     tc = gen_tables(ctx)
     ta = run_cases(ctx, "tables", tc)
@@ -696,6 +742,7 @@ def search(ctx):
     rng = ctx.sub_rng("c07-search")
     n0 = len(ctx.failures)
     oracle_registry(ctx)
+    oracle_context_ctor(ctx)
     cases = []
     for n in range(0, 70001):
         cases.append({"op": "len-enc", "n": n})
@@ -723,7 +770,7 @@ def search(ctx):
     if len(ctx.failures) > n0:
         return
     for first in [0x00, 0x08, 0x0e, 0x10, 0x20, 0x30, 0x3c, 0x40, 0x43, 0x50, 0x60, 0x70, 0x71, 0x80, 0xf0]:
-        for v in range(0, 65536, 1 if not ctx.quick else 7):
+        for v in range(0, 65536, 1 if not ctx.quick else 23):
             hx = bytes([first]).hex() + v.to_bytes(2, "big").hex()
             for op in ("dec", "adec"):
                 c = {"op": op, "hex": hx}
@@ -737,6 +784,9 @@ def replay(ctx, payload):
         raise core.Infra("nothing to replay")
     if case.get("op") == "registry":
         oracle_registry(ctx)
+        return
+    if case.get("op") == "ctx-ctor":
+        oracle_context_ctor(ctx)
         return
     a = run_cases(ctx, "replay", [case])
     if case["op"] in ("len-enc", "segs-enc"):
